@@ -349,6 +349,9 @@ class IntGen:
         if k < 0.32:
             return sub(g(), g())
         if k < 0.36:
+            if r.random() < 0.4:
+                # no positive term at all (what -a - b builds)
+                return p.Sum(tuple(p.Product((-1, g())) for _ in range(r.randint(2, 3))))
             return p.Sum((g(), p.Product((-1, g(), g())), p.Product((-1, g()))))
         if k < 0.54:
             return p.Product(tuple(g() for _ in range(r.randint(2, 3))))
